@@ -363,3 +363,24 @@ Proof.
   intros sx' sy' cx' cy' w' Ep' Hd'. rewrite Ep in Ep'. inversion Ep'; subst sx' sy'.
   rewrite Hd in Hd'. inversion Hd'; subst. exact He.
 Qed.
+
+(* completeness and soundness together, with the notions spelled out *)
+Theorem solve_checked_complete_sound A b :
+  Forall (fun row => length row = length A) A -> length b = length A ->
+  (forall v, length v = length A -> (forall row, In row A -> dot row v == 0) -> Forall (fun c => c == 0) v) ->
+  exists beta, solve_checked A b = Some beta /\ Forall2 Qeq (mat_vec A beta) b /\ length beta = length A.
+Proof.
+  intros Sq Lb Reg. destruct (solve_checked_complete A b Sq Lb Reg) as [beta H]. exists beta. split; [exact H|].
+  destruct (solve_checked_sound A b beta H) as (S1 & S2 & S3). split; [exact S1 | congruence].
+Qed.
+
+(* the normal matrix of a design with independent columns on the positive-weight observations is regular *)
+Theorem normal_matrix_regular n cols w : Forall (fun c => length c = n) cols -> length w = n ->
+  (forall i, (i < n)%nat -> 0 <= vn w i) -> indep_cols n cols w ->
+  let A := normal_lhs cols w in
+  length A = length cols /\ Forall (fun row => length row = length A) A /\
+  (forall v, length v = length A -> (forall row, In row A -> dot row v == 0) -> Forall (fun c => c == 0) v).
+Proof.
+  intros Hc Hl Hw Hi A. split; [unfold A, normal_lhs; now rewrite map_length|]. split; [apply normal_square|].
+  exact (normal_regular n cols w Hc Hl Hw Hi).
+Qed.
